@@ -547,7 +547,7 @@ pub fn run(ctx: &mut Ctx) -> Result<(), Violation> {
     }
     ctx.stage("hand-written", true, (st, None))?;
 
-    let cases = ctx.tier.pick(400, 12_000);
+    let cases = ctx.tier.pick(400, 40_000);
     let r = par_random(ctx, "random-formulas", cases, 300, |tape, st| {
         let mut t = Tape::new(tape);
         let (text, idents) = match gen_formula_text(&mut t, 5) {
